@@ -76,7 +76,7 @@ type X struct {
 	srv    *api.APIServer
 	flags  map[string]int
 	pend   int // blocks attached but not announced
-	script []string
+	ops    []string
 }
 
 func maxUnusedFor(gap uint32) uint32 {
@@ -130,10 +130,10 @@ func deriveFamily(num int, mnemonic, pass string) (*family, error) {
 }
 
 func (x *X) emitFamily(f *family) {
-	x.h.Emit("F %d %d", f.num, famK)
+	x.h.AEmit("F %d %d", f.num, famK)
 	for br := 0; br < 2; br++ {
 		for i, sh := range f.sh[br] {
-			x.h.Emit("D %d %d %d %d", f.num, br, i, x.h.ShID(sh))
+			x.h.AEmit("D %d %d %d %d", f.num, br, i, x.h.AShID(sh))
 		}
 	}
 }
@@ -165,16 +165,16 @@ func (x *X) opCreate() (*wal, error) {
 	x.nextW++
 	w := &wal{num: x.nextW, fam: f, id: wi.ID, cls: map[int]int{}}
 	x.live = append(x.live, w)
-	x.h.Emit("W %d %d", w.num, f.num)
+	x.h.AEmit("W %d %d", w.num, f.num)
 	return w, nil
 }
 
 func errText(err error) string { return strings.ReplaceAll(err.Error(), " ", "_") }
 
 func (x *X) opNew(w *wal, cls int, viaAPI bool) {
-	x.script = append(x.script, fmt.Sprintf("new %d %d %v", w.num, cls, viaAPI))
+	x.ops = append(x.ops, fmt.Sprintf("new %d %d %v", w.num, cls, viaAPI))
 	if _, err := x.h.W.WM.UseWallet(w.id); err != nil {
-		x.h.Emit("NA %d %d %d other:use:%s", w.num, cls, b2i(viaAPI), errText(err))
+		x.h.AEmit("NA %d %d %d other:use:%s", w.num, cls, b2i(viaAPI), errText(err))
 		return
 	}
 	var a string
@@ -216,7 +216,7 @@ func (x *X) opNew(w *wal, cls int, viaAPI bool) {
 				form = 1
 			}
 			sh := addr.ScriptAddress()
-			res = fmt.Sprintf("ok:%d:%d", x.h.ShID(sh), form)
+			res = fmt.Sprintf("ok:%d:%d", x.h.AShID(sh), form)
 			for i, s := range w.fam.sh[0] {
 				if bytes.Equal(s, sh) {
 					w.issued = append(w.issued, i)
@@ -228,7 +228,7 @@ func (x *X) opNew(w *wal, cls int, viaAPI bool) {
 	} else {
 		x.flag("refused_" + strings.SplitN(res, ":", 2)[0])
 	}
-	x.h.Emit("NA %d %d %d %s", w.num, cls, b2i(viaAPI), res)
+	x.h.AEmit("NA %d %d %d %s", w.num, cls, b2i(viaAPI), res)
 }
 
 func jsonUnmarshal(s string, v interface{}) { _ = json.Unmarshal([]byte(s), v) }
@@ -278,7 +278,7 @@ func (x *X) opBlock(ts []target, viaTx, quiet bool) error {
 			desc = append(desc, fmt.Sprintf("%d:%s%d:%s", t.fam.num, b, t.index, t.kind))
 		}
 	}
-	x.script = append(x.script, fmt.Sprintf("block [%s] tx=%v quiet=%v", strings.Join(desc, ","), viaTx, quiet))
+	x.ops = append(x.ops, fmt.Sprintf("block [%s] tx=%v quiet=%v", strings.Join(desc, ","), viaTx, quiet))
 	var b *massutil.Block
 	if viaTx {
 		b = x.h.PayBlock(nil, outs)
@@ -299,7 +299,7 @@ func (x *X) opBlock(ts []target, viaTx, quiet bool) error {
 }
 
 func (x *X) opDetach(d int) error {
-	x.script = append(x.script, fmt.Sprintf("detach %d", d))
+	x.ops = append(x.ops, fmt.Sprintf("detach %d", d))
 	for i := 0; i < d && x.h.N.Height() > 0; i++ {
 		if _, err := x.h.Detach(); err != nil {
 			return err
@@ -320,30 +320,30 @@ func (x *X) settle() {
 func (x *X) opObserve(w *wal) {
 	info, err := x.h.W.WM.UseWallet(w.id)
 	if err != nil {
-		x.h.Emit("KS %d error:%s", w.num, errText(err))
+		x.h.AEmit("KS %d error:%s", w.num, errText(err))
 		return
 	}
 	_, _, _, ksmgr, _ := x.h.W.WM.VerifStores()
 	am, err := ksmgr.GetAddrManagerByAccountID(w.id)
 	if err != nil {
-		x.h.Emit("KS %d error:%s", w.num, errText(err))
+		x.h.AEmit("KS %d error:%s", w.num, errText(err))
 		return
 	}
 	var ids []int
 	for _, ma := range am.ManagedAddresses() {
-		ids = append(ids, x.h.ShID(ma.ScriptAddress()))
+		ids = append(ids, x.h.AShID(ma.ScriptAddress()))
 	}
 	sort.Ints(ids)
 	var sb strings.Builder
 	for _, id := range ids {
 		fmt.Fprintf(&sb, " %d", id)
 	}
-	x.h.Emit("KS %d %d %d %d%s", w.num, info.ExternalKeyCount, info.InternalKeyCount, len(ids), sb.String())
-	x.h.Emit("BAL %d %d", w.num, info.TotalBalance.IntValue())
+	x.h.AEmit("KS %d %d %d %d%s", w.num, info.ExternalKeyCount, info.InternalKeyCount, len(ids), sb.String())
+	x.h.AEmit("BAL %d %d", w.num, info.TotalBalance.IntValue())
 	for _, filter := range []uint16{0, 1, math.MaxUint16} {
 		l, err := x.h.W.WM.GetAddresses(filter)
 		if err != nil {
-			x.h.Emit("L %d %d error:%s", w.num, filter, errText(err))
+			x.h.AEmit("L %d %d error:%s", w.num, filter, errText(err))
 			continue
 		}
 		type ent struct {
@@ -354,7 +354,7 @@ func (x *X) opObserve(w *wal) {
 			a, err := massutil.DecodeAddress(ad.Address, config.ChainParams)
 			sh := 0
 			if err == nil {
-				sh = x.h.ShID(a.ScriptAddress())
+				sh = x.h.AShID(a.ScriptAddress())
 				// the class reported must be the class of the address string
 				if (ad.AddressClass == massutil.AddressClassWitnessStaking) != massutil.IsWitnessStakingAddress(a) {
 					sh = -sh
@@ -378,7 +378,7 @@ func (x *X) opObserve(w *wal) {
 		for _, e := range es {
 			fmt.Fprintf(&lb, " %d:%d:%d", e.cls, e.sh, e.used)
 		}
-		x.h.Emit("L %d %d %d%s", w.num, filter, len(es), lb.String())
+		x.h.AEmit("L %d %d %d%s", w.num, filter, len(es), lb.String())
 	}
 	x.flag("observations")
 }
@@ -404,11 +404,11 @@ func (x *X) openLine() {
 	for _, w := range x.live {
 		fmt.Fprintf(&sb, " %d", w.num)
 	}
-	x.h.Emit("OPEN%s", sb.String())
+	x.h.AEmit("OPEN%s", sb.String())
 }
 
 func (x *X) opRestart() error {
-	x.script = append(x.script, "restart")
+	x.ops = append(x.ops, "restart")
 	x.settle()
 	dir := x.h.W.Dir
 	x.h.W.Stop()
@@ -430,7 +430,7 @@ func (x *X) opRestart() error {
 func (x *X) opInstance() error {
 	x.settle()
 	for _, w := range x.live {
-		x.h.Emit("ST %d", w.num)
+		x.h.AEmit("ST %d", w.num)
 	}
 	x.h.W.Stop()
 	x.live = nil
@@ -452,7 +452,7 @@ func (x *X) opInstance() error {
 }
 
 func (x *X) opExport(w *wal) {
-	x.script = append(x.script, fmt.Sprintf("export %d", w.num))
+	x.ops = append(x.ops, fmt.Sprintf("export %d", w.num))
 	js, err := x.h.W.WM.ExportWallet(w.id, w.fam.pass)
 	if err == nil {
 		w.fam.keyfile = js
@@ -461,7 +461,7 @@ func (x *X) opExport(w *wal) {
 
 // opRestore imports family f into the current instance (mode m: mnemonic with hints; k: keystore file).
 func (x *X) opRestore(f *family, mode string, hintE, hintI uint32) (*wal, error) {
-	x.script = append(x.script, fmt.Sprintf("restore %d %s %d %d", f.num, mode, hintE, hintI))
+	x.ops = append(x.ops, fmt.Sprintf("restore %d %s %d %d", f.num, mode, hintE, hintI))
 	x.settle()
 	x.nextW++
 	w := &wal{num: x.nextW, fam: f, cls: map[int]int{}}
@@ -488,7 +488,7 @@ func (x *X) opRestore(f *family, mode string, hintE, hintI uint32) (*wal, error)
 		}
 	}
 	if err != nil {
-		x.h.Emit("RX %d %d %s %d %d err:%s", w.num, f.num, mode, hintE, hintI, errText(err))
+		x.h.AEmit("RX %d %d %s %d %d err:%s", w.num, f.num, mode, hintE, hintI, errText(err))
 		return nil, nil
 	}
 	if !x.h.W.WaitTasks(20 * time.Second) {
@@ -496,7 +496,7 @@ func (x *X) opRestore(f *family, mode string, hintE, hintI uint32) (*wal, error)
 	}
 	w.id = id
 	x.live = append(x.live, w)
-	x.h.Emit("RX %d %d %s %d %d ok", w.num, f.num, mode, hintE, hintI)
+	x.h.AEmit("RX %d %d %s %d %d ok", w.num, f.num, mode, hintE, hintI)
 	x.flag("restores")
 	if hintI > 0 {
 		x.flag("restores_with_internal_hint")
@@ -660,7 +660,7 @@ func runOne(seed uint64, n int, scriptText string) ([]byte, map[string]int, erro
 	}()
 	x := &X{h: h, r: r, gap: gap, maxUn: maxUnusedFor(gap), flags: map[string]int{}}
 	x.configure()
-	h.Emit("GAP %d %d", gap, x.maxUn)
+	h.AEmit("GAP %d %d", gap, x.maxUn)
 	x.flags[fmt.Sprintf("gap%d", gap)]++
 	if scriptText != "" {
 		err = x.runScript(ops)
@@ -673,7 +673,7 @@ func runOne(seed uint64, n int, scriptText string) ([]byte, map[string]int, erro
 	h.End()
 	out.Flush()
 	if os.Getenv("VERIF_SHOW") != "" {
-		fmt.Fprintf(os.Stderr, "history %d gap=%d: %s\n", n, gap, strings.Join(x.script, "; "))
+		fmt.Fprintf(os.Stderr, "history %d gap=%d: %s\n", n, gap, strings.Join(x.ops, "; "))
 	}
 	return buf.Bytes(), x.flags, nil
 }
